@@ -574,6 +574,11 @@ func (db *Database) performFuzzySearch(query string, options SearchOptions) []Se
 		})
 	}
 
+	// The candidate window above is twice the limit; the caller asked for Limit.
+	if options.Limit > 0 && len(results) > options.Limit {
+		results = results[:options.Limit]
+	}
+
 	return results
 }
 
